@@ -32,6 +32,28 @@ type inst struct {
 	// in between the specification (minimum = security strength) and the library's own documented
 	// minimum disagree or are silent, and either answer is accepted (soundness rule 1).
 	mustErrE, mustErrN int
+	// minE/minN (0 = the defaults okFromE/okFromN): lengths from which this instance must accept. Only the
+	// GM flag over a primitive with a 64-byte digest raises them (the library ties its minimum to the digest).
+	minE, minN int
+}
+
+func (in *inst) okE() int {
+	if in.minE > okFromE {
+		return in.minE
+	}
+	return okFromE
+}
+
+func (in *inst) okN() int {
+	if in.minN > okFromN {
+		return in.minN
+	}
+	return okFromN
+}
+
+// stdSeed: the standard instantiation inputs of the history machines (all above every minimum).
+func (in *inst) stdSeed() (e, n, p []byte) {
+	return det(roleEntropy, in.okE()+16), det(roleNonce, in.okN()+8), det(rolePers, 11)
 }
 
 // lengths from which every flavour must accept: 256 bits of entropy, 128 bits of nonce.
@@ -137,10 +159,13 @@ func instances() []*inst {
 		newPrng: func(src io.Reader, s int, l drbg.SecurityLevel, p []byte) (*drbg.DrbgPrng, error) {
 			return drbg.NewNistCtrDrbgPrng(sm4.NewCipher, 16, src, s, l, p)
 		}})
-	for _, kl := range []int{16, 32} {
+	for _, kl := range []int{16, 24, 32} {
 		kl := kl
 		rc := drbgref.AES128
-		if kl == 32 {
+		switch kl {
+		case 24:
+			rc = drbgref.AES192
+		case 32:
 			rc = drbgref.AES256
 		}
 		r = append(r, &inst{name: fmt.Sprintf("CTR-AES%d-NIST", kl*8), kind: "ctr", hs: 16, mustErrE: 1, mustErrN: 1,
